@@ -26,7 +26,7 @@ impl Clock for SimClock {
     }
 }
 
-const POOL: usize = 256;
+const POOL: usize = 8192;
 #[allow(clippy::declare_interior_mutable_const)]
 const SC: SimClock = SimClock::new();
 #[allow(clippy::declare_interior_mutable_const)]
